@@ -97,7 +97,7 @@ def gen_archive(rng: Rng, tier, want_multi=None, want_dirs=None, encrypted=None,
 
 
 class Built:
-    __slots__ = ("image", "model", "password", "ref", "nfolders", "error", "rejected", "opened_without_password")
+    __slots__ = ("image", "model", "password", "ref", "nfolders", "error", "rejected", "opened_without_password", "spurious_password")
 
 
 def build_archive(recipe) -> Built:
@@ -399,7 +399,7 @@ def predict(call, built: Built):
         return ("names", nm, nm)
     if op == "needs_password":
         aes = any(c["id"] == RC.M_AES for f in (built.ref.main["folders"] if built.ref and built.ref.main and built.ref.main["folders"] else []) for c in f["coders"])
-        supplied = built.password is not None and not getattr(built, "opened_without_password", False)
+        supplied = (built.password is not None and not getattr(built, "opened_without_password", False)) or getattr(built, "spurious_password", None) is not None
         return ("needs_password", bool(aes or supplied))
     if op == "test":
         return ("test", (None, True))
